@@ -23,6 +23,20 @@ def run_parallel(v, jobs, seed, timeout=1500):
         lines += [l for l in out.splitlines() if '\t' in l]
     return lines
 
+def eval_with_retry(prop, imports, ctype, cases, shard):
+    """coq_eval_cases, re-running (in smaller shards, twice at most) the shards whose coqc did not finish: on a loaded
+    machine the per-process timeout can expire, and an evaluation that did not run says nothing about the property"""
+    mism, errs = coq_eval_cases(prop, imports, ctype, cases, shard=shard)
+    cur = list(range(len(cases)))
+    for attempt in range(2):
+        failed = sorted(set(int(m.group(1)) for m in (re.match(r'shard (\d+):', e) for e in errs) if m))
+        if not errs or not failed: break
+        cur = [cur[i] for k in failed for i in range(k * shard, min(len(cur), (k + 1) * shard))]
+        shard = max(5, shard // 4)
+        m2, errs = coq_eval_cases(prop + 'r', imports, ctype, [cases[i] for i in cur], shard=shard)
+        mism = sorted(set(mism) | set(cur[j] for j in m2))
+    return mism, errs
+
 def main(argv):
     tier, seed, replay = tier_and_seed(argv)
     v = Verdict(PROP, tier, seed)
@@ -76,8 +90,8 @@ def main(argv):
         v.violation('implementation-level oracle: ' + what, {'class': cls, 'replay_args': rargs, 'input': text[:4000], 'detail': [x[:2000] for x in f]})
 
     if v.corr_ok and cases:
-        shard = 60 if tier == 'quick' else 150
-        mism, errs = coq_eval_cases(PROP, IMPORTS, 'c17case', cases, shard=shard)
+        shard = 60 if tier == 'quick' else 100
+        mism, errs = eval_with_retry(PROP, IMPORTS, 'c17case', cases, shard)
         v.obligation('correspondence: model = implementation on %d cases (vm_compute inside Coq)' % len(cases), not mism and not errs,
                      ('%d mismatches; ' % len(mism)) + '; '.join(errs)[:600] if (mism or errs) else '')
         shown = set()
